@@ -871,6 +871,7 @@ def run(ctx):
     # =================================================================================================
     # ---- the SOURCE-REGENERATED code (translator, string subset): see gen_stream below ----------------
     gen_stream(ctx, pu, jobs)
+    gen_attr_stream(ctx, pu, jobs)
 
 
 # Generated-code stream: Gen.parseLengthWithUnits / Gen.unitsToUserUnits / Gen.userUnitToUnits
@@ -957,3 +958,87 @@ def gen_stream(ctx, pu, jobs):
     ctx.notes.append('generated-code stream (Rounding.ieee, identical results required): ' +
                      ', '.join(f'Gen.{names[k]} {n[k]} cases ({bad[k]} differ)' for k in n) +
                      f'; {skipped} outside the value domain (non-finite / out of range) not compared; {time.time() - t0:.1f}s')
+
+
+# Generated-code stream for the two document-attribute readers: Gen.getLength / Gen.getLengthInches
+# (lean/Plotink/Gen/getLength.lean, getLengthInches.lean, regenerated from plot_utils.py on every run).  The translator
+# replaces the opaque lookup `altself.document.getroot().get(name)` by the parameter `attr_name` (recorded as
+# "abstracted" in lean/Plotink/Gen/report.json); here the real functions read the attribute from this module's stub
+# documents (lxml where the text is XML-legal, else the fake document) and the generated ones get the same text (or
+# None for an absent attribute) passed in.  Rounding.ieee; results must be IDENTICAL, floats bit for bit.  Same value
+# domain as the stream above.
+GEN_FUNCTIONS = GEN_FUNCTIONS + ['getLength', 'getLengthInches']
+TRUSTED = TRUSTED + ['Gen.getLength / Gen.getLengthInches are regenerated from plot_utils.py on every run (C12_gen_attr, '
+                     'C12_gen_tables_getLength*, C12_gen_attr_absent); the document lookup altself.document.getroot().get(name) '
+                     'is NOT translated: it is the parameter attr_name of the generated functions (the attribute text or None) - '
+                     'that lxml / the document returns that text is outside the model; validated by the generated-code stream of '
+                     'this run against the real functions on stub documents']
+
+
+def gen_attr_stream(ctx, pu, jobs):
+    if not ctx.driver:
+        ctx.notes.append('generated-code stream (attribute readers) skipped: no driver')
+        return
+    import time
+    from .common import pyval
+    t0 = time.time()
+    sel = []
+    for (stream, fn, args, idx, extra) in jobs:
+        if fn not in ('len', 'inch'):
+            continue
+        if not (args[0] is None or isinstance(args[0], str)):
+            continue
+        if isinstance(args[0], str) and not all(ord(c) < 128 for c in args[0]):
+            continue
+        if fn == 'len' and (isinstance(args[1], bool) or not isinstance(args[1], (int, float))):
+            continue
+        sel.append((fn, args))
+    # the same texts with every kind of default / reference, zero included
+    extra_defaults = [0, 0.0, -0.0, 1, 100, 816.0, 12.5, -3, 1e-3]
+    more = []
+    for k, (fn, args) in enumerate(sel):
+        if fn == 'len' and k % 5 == 0:
+            more.append(('len', (args[0], extra_defaults[(k // 5) % len(extra_defaults)])))
+    sel += more
+    cap = ctx.n(12000)
+    if len(sel) > cap:
+        sel = sel[:600] + ctx.rng.sample(sel[600:], max(0, cap - 600)) if cap > 600 else sel[:max(cap, 0)]
+
+    def sarg(t):
+        return 'None' if t is None else 's' + enc_str(t)
+    lines = [f'gen getLength 15 {sarg(a[0])} {pyval(a[1])}' if fn == 'len' else f'gen getLengthInches 15 {sarg(a[0])}'
+             for fn, a in sel]
+    outs = ctx.driver.batch(lines)
+    n = {'len': 0, 'inch': 0}
+    bad = {'len': 0, 'inch': 0}
+    kinds = {'lxml': 0, 'fake': 0}
+    skipped = 0
+    names = {'len': 'getLength', 'inch': 'getLengthInches'}
+    for (fn, args), g in zip(sel, outs):
+        try:
+            st = Stub(args[0])
+            kinds[st.kind] += 1
+            r = pu.getLength(st, 'width', args[1]) if fn == 'len' else pu.getLengthInches(st, 'width')
+        except Exception as ex:
+            r = ex
+        fl = _gen_floats(r)
+        if any(x != x or x in (math.inf, -math.inf) or (x != 0 and not 1e-290 <= abs(x) <= 1e290) for x in fl) or \
+                any(isinstance(a, float) and (a != a or a in (math.inf, -math.inf)) for a in args):
+            skipped += 1
+            continue
+        want = 'RAISE ' + type(r).__name__ if isinstance(r, Exception) else pyval(r)
+        if any(x == 0 for x in fl) and g != want:
+            # a double zero may be an underflow (1e-400): the generated code keeps the tiny exact value
+            skipped += 1
+            continue
+        n[fn] += 1
+        ctx.count(('gen', fn, repr(args)), 'gen:' + fn, False)
+        if g != want and not (want.startswith('RAISE') and 'ERR' in g):
+            bad[fn] += 1
+            ctx.disagree(f'Gen.{names[fn]} (Rounding.ieee, attribute text passed in) vs plot_utils.{names[fn]} on a stub document',
+                         {'fn': names[fn], 'gen': True, 'attribute': repr(args[0]),
+                          'default': repr(args[1]) if fn == 'len' else None}, want, g)
+    ctx.notes.append('generated-code stream, attribute readers (Rounding.ieee, identical results required): ' +
+                     ', '.join(f'Gen.{names[k]} {n[k]} cases ({bad[k]} differ)' for k in n) +
+                     f'; documents: {kinds["lxml"]} lxml, {kinds["fake"]} fake; {skipped} outside the value domain not compared; '
+                     f'{time.time() - t0:.1f}s')
